@@ -167,7 +167,10 @@ Section Steps.
   Lemma good_ok s k tbe time :
     Inv s -> s_idcount s <= IDLIM -> 0 < time ->
     exists s' b, good c tried_bucket new_bucket bucket_pos network s k tbe time = Ok (s', b) /\ Inv s' /\ s_idcount s' = s_idcount s /\
-      s_last_good s' = time /\ (tbe = false -> s_coll s' = s_coll s) /\
+      s_last_good s' = time /\
+      (s_coll s' = s_coll s \/
+       (tbe = true /\ b = false /\ exists id a o, find_addr s k = Some (id, a) /\ a_tried a = false /\
+          sfind (tslot k) (s_tried s) = Some o /\ s_coll s' = set_insert id (s_coll s))) /\
       match find_addr s k with
       | None => b = false /\ s' = set_last_good time s
       | Some (id, a) =>
@@ -194,7 +197,7 @@ Section Steps.
     pose proof (G_last_good [] [] s time G) as G0. set (s0 := set_last_good time s) in *.
     assert (FA0 : find_addr s0 k = find_addr s k) by reflexivity. rewrite FA0.
     destruct (find_addr s k) as [[id a]|] eqn:FA.
-    2:{ exists s0, false. split; [reflexivity|]. split; [auto|]. split; [reflexivity|]. split; [reflexivity|]. split; [reflexivity|]. auto. }
+    2:{ exists s0, false. split; [reflexivity|]. split; [auto|]. split; [reflexivity|]. split; [reflexivity|]. split; [left; reflexivity|]. auto. }
     pose proof G0 as (HA & HR & HC & HX).
     destruct (find_addr_some c tried_bucket bucket_pos routable s0 k id a HA FA0) as (F & K).
     set (a1 := set_attempts 0 (set_last_try time (set_last_success time a))).
@@ -205,11 +208,11 @@ Section Steps.
     assert (F1 : zfind id (s_info s1) = Some a1) by (unfold s1; simpl; rewrite zfind_zset, Z.eqb_refl; auto).
     change (a_tried a1) with (a_tried a). change (a_ref a1) with (a_ref a). change (a_key a1) with (a_key a). rewrite K.
     destruct (a_tried a) eqn:T.
-    { exists s1, false. split; [reflexivity|]. split; [auto|]. split; [reflexivity|]. split; [reflexivity|]. split; [reflexivity|]. simpl. auto 10. }
+    { exists s1, false. split; [reflexivity|]. split; [auto|]. split; [reflexivity|]. split; [reflexivity|]. split; [left; reflexivity|]. simpl. auto 10. }
     assert (RP : 1 <= a_ref a) by (apply (HX id a F T); intros []).
     replace (a_ref a >? 0) with true by (symmetry; apply Z.gtb_lt; lia). cbn [negb].
     assert (MT : exists s' , make_tried c tried_bucket new_bucket bucket_pos network s1 id = Ok s' /\ Inv s' /\ s_idcount s' = s_idcount s /\ s_last_good s' = time /\
-               (tbe = false -> s_coll s' = s_coll s) /\ a_tried a = false /\
+               s_coll s' = s_coll s /\ a_tried a = false /\
                (exists r, zfind id (s_info s') = Some (set_rpos r (set_tried true (set_ref 0 a1)))) /\
                sfind (tslot k) (s_tried s') = Some id /\
                (forall sl, sl <> tslot k -> sfind sl (s_tried s') = sfind sl (s_tried s)) /\
@@ -225,7 +228,7 @@ Section Steps.
       { simpl. lia. }
       change (a_key a1) with (a_key a) in *. rewrite K in *.
       exists s'. split; [exact M|]. split; [auto|]. split; [rewrite e1; reflexivity|]. split; [rewrite e3; reflexivity|].
-      split; [intros _; rewrite e2; reflexivity|]. split; [auto|]. split; [auto|]. split; [auto|]. split; [exact TO|]. split.
+      split; [rewrite e2; reflexivity|]. split; [auto|]. split; [auto|]. split; [auto|]. split; [exact TO|]. split.
       - intros id0 a0 N0 F0. assert (F01 : zfind id0 (s_info s1) = Some a0) by (unfold s1; simpl; rewrite zfind_zset, (proj2 (Z.eqb_neq id id0)) by auto; auto).
         destruct (OTH id0 a0 N0 F01) as [Q|(Q1 & Q2 & idev & old & Q3 & Q4 & Q5)]; [left; exact Q|].
         right. split; [auto|]. split; [auto|]. exists idev.
@@ -236,12 +239,14 @@ Section Steps.
     change (s_tried s1) with (s_tried s). change (s_coll s1) with (s_coll s).
     destruct (sfind (tslot k) (s_tried s)) as [o|] eqn:FT.
     - destruct tbe.
-      + eexists _, false. split; [reflexivity|]. split; [|split; [|split; [|split; [discriminate | simpl; eauto 10]]]].
+      + eexists _, false. split; [reflexivity|]. split; [|split; [|split; [|split]]].
         * destruct (zlen (s_coll s) <? c_COLL c) eqn:LC; [|exact G1]. apply Z.ltb_lt in LC.
           apply G_coll; auto. destruct G1 as (A1 & _). destruct (S_coll _ _ _ _ _ A1) as [Q1 Q2]. simpl in Q1, Q2.
           split; [apply set_insert_sorted; auto|]. pose proof (set_insert_len id (s_coll s)). lia.
         * destruct (zlen (s_coll s) <? c_COLL c); reflexivity.
         * destruct (zlen (s_coll s) <? c_COLL c); reflexivity.
+        * destruct (zlen (s_coll s) <? c_COLL c); [right | left; reflexivity].
+          split; [auto|]. split; [auto|]. exists id, a, o. auto 10.
         * destruct (zlen (s_coll s) <? c_COLL c); simpl; eauto 10.
       + destruct MT as (s' & M & Q). rewrite M. cbn [bind]. exists s', true. split; [reflexivity|]. tauto.
     - destruct MT as (s' & M & Q). rewrite M. cbn [bind]. exists s', true. split; [reflexivity|]. tauto.
@@ -325,6 +330,7 @@ Section Steps.
     assert (GOOD : forall k, exists s' e, (do (s1, _) <- good c tried_bucket new_bucket bucket_pos network s k false now; Ok (s1, true)) = Ok (s', e) /\ Inv s' /\
                      s_idcount s' = s_idcount s /\ s_coll s' = s_coll s /\ occ_mono s s' /\ kback s s').
     { intros k. destruct (good_ok s k false now G LIM TP) as (s' & b & GD & I' & e1 & e2 & e3 & _).
+      assert (e3' : s_coll s' = s_coll s) by (destruct e3 as [e3|(e3 & _)]; [auto | discriminate]).
       destruct (good_frames s k false now s' b G LIM TP GD) as (O & KB).
       rewrite GD. cbn [bind]. exists s', true. split; [reflexivity|]. auto 10. }
     destruct (zfind idn (s_info s)) as [inew|] eqn:FN; [|exact SAME].
@@ -371,10 +377,11 @@ Section Steps.
 
   Lemma resolve_collisions_ok s now :
     Inv s -> CollInv s -> s_idcount s <= IDLIM -> 0 < now ->
-    exists s', resolve_collisions c tried_bucket new_bucket bucket_pos valid network s now = Ok s' /\ Inv s' /\ CollInv s' /\ s_idcount s' = s_idcount s.
+    exists s', resolve_collisions c tried_bucket new_bucket bucket_pos valid network s now = Ok s' /\ Inv s' /\ CollInv s' /\ s_idcount s' = s_idcount s /\
+      (forall x, In x (s_coll s') -> In x (s_coll s)).
   Proof.
     intros G CI LIM TP. unfold resolve_collisions.
-    destruct (resolve_loop_ok (s_coll s) s now G LIM TP) as (s' & RL & I' & CI' & e & _).
+    destruct (resolve_loop_ok (s_coll s) s now G LIM TP) as (s' & RL & I' & CI' & e & SUB).
     { intros id a [I|I] F; apply (CI id a); auto. }
     exists s'. auto.
   Qed.
@@ -382,18 +389,19 @@ Section Steps.
   (* ---------- SelectTriedCollision_ ---------- *)
   Lemma select_tried_collision_ok s draw :
     Inv s -> CollInv s ->
-    exists s' r, select_tried_collision tried_bucket bucket_pos s draw = Ok (s', r) /\ Inv s' /\ CollInv s' /\ s_idcount s' = s_idcount s.
+    exists s' r, select_tried_collision tried_bucket bucket_pos s draw = Ok (s', r) /\ Inv s' /\ CollInv s' /\ s_idcount s' = s_idcount s /\
+      (forall x, In x (s_coll s') -> In x (s_coll s)).
   Proof.
     intros G CI. unfold select_tried_collision.
-    destruct (s_coll s) as [|x l] eqn:EC; [exists s, None; auto|]. rewrite <- EC.
-    destruct (znth draw (s_coll s)) as [idn|] eqn:ZN; [|exists s, None; auto].
+    destruct (s_coll s) as [|x l] eqn:EC; [exists s, None; rewrite EC; auto 10|]. rewrite <- EC.
+    destruct (znth draw (s_coll s)) as [idn|] eqn:ZN; [|exists s, None; auto 10].
     assert (IN : In idn (s_coll s)).
     { unfold znth in ZN. destruct (draw <? 0); [discriminate|]. eapply nth_error_In; eauto. }
     destruct (zfind idn (s_info s)) as [inew|] eqn:FN.
     - destruct (CI _ _ IN FN) as (o & FO). rewrite FO.
       pose proof G as (HA & _). destruct (S_tried1 _ _ _ _ _ HA _ _ FO) as (iold & FI & _). rewrite FI.
-      eexists s, _. split; [reflexivity|]. auto.
-    - eexists _, None. split; [reflexivity|]. split; [|split; [|reflexivity]].
+      eexists s, _. split; [reflexivity|]. auto 10.
+    - eexists _, None. split; [reflexivity|]. split; [|split; [|split; [reflexivity | simpl; intros y I; eapply set_remove_In; eauto]]].
       + apply G_coll; auto. apply coll_ok_remove. destruct G as (A1 & _). apply (S_coll _ _ _ _ _ A1).
       + intros id a I F. simpl in *. apply (CI id a); auto. eapply set_remove_In; eauto.
   Qed.
